@@ -221,15 +221,19 @@ MapOutside(s, qq, up, i, q, acc) ==
   ELSE LET q2 == QStep(s, 1, qq, i, q)
            inq == q.sq \/ q.dq \/ q2.sq \/ q2.dq         \* the quote characters themselves are not letters
            ch  == CASE up = "upper" -> Up(s[i]) [] up = "lower" -> Lo(s[i])
+                    [] up = "alt" -> IF i % 2 = 1 THEN Up(s[i]) ELSE Lo(s[i])                    \* representative of an
+                                                           \* arbitrary per-letter assignment (the replay draws one per line)
                     [] OTHER -> IF IsLower(s[i]) THEN Up(s[i]) ELSE Lo(s[i])                     \* "swap"
        IN  MapOutside(s, qq, up, i + 1, q2, Append(acc, IF inq THEN s[i] ELSE ch))
 UpOutside(s, qq) == MapOutside(s, qq, "upper", 1, Q0, <<>>)
 LoOutside(s, qq) == MapOutside(s, qq, "lower", 1, Q0, <<>>)
 SwapOutside(s, qq) == MapOutside(s, qq, "swap", 1, Q0, <<>>)
+AltOutside(s, qq) == MapOutside(s, qq, "alt", 1, Q0, <<>>)
 
 CaseOf(s, mode, qq) == CASE mode = "upper" -> UpOutside(s, qq)
                          [] mode = "lower" -> LoOutside(s, qq)
                          [] mode = "swap"  -> SwapOutside(s, qq)
+                         [] mode = "alt"   -> AltOutside(s, qq)
                          [] OTHER          -> s
 
 RECURSIVE JoinArgs(_, _, _)
